@@ -101,7 +101,7 @@ structure Sizes where
   deriving DecidableEq, Repr, Inhabited
 
 /-- numeric value of a parameter as seen by a bound expression (`static_cast<T>(parameters[kw])`) -/
-def numView (get : Kw → Except Err Val) (kw : Kw) : Rat :=
+def numView (get : Kw → Except Err Val) (kw : Kw) : XReal :=
   match get kw with
   | .ok v => (v.num?).getD 0
   | .error _ => 0
